@@ -1,7 +1,9 @@
 pub mod common;
+pub mod c01;
 pub mod c02;
 pub mod c03;
 pub mod c05;
+pub mod c06;
 pub mod c07;
 pub mod c08;
 pub mod c09;
@@ -28,9 +30,11 @@ macro_rules! dispatch {
 }
 
 dispatch! {
+    "C01" => c01,
     "C02" => c02,
     "C03" => c03,
     "C05" => c05,
+    "C06" => c06,
     "C07" => c07,
     "C08" => c08,
     "C09" => c09,
